@@ -28,9 +28,12 @@ impl<O: Send + Sync> ParCollectIntoCore<O> for Vec<O> {
         M: Fn(I::Item) -> O + Send + Sync + Clone,
     {
         match par_map.iter_len() {
-            None => SplitVec::with_doubling_growth_and_fragments_capacity(32)
-                .map_into(par_map)
-                .to_vec(),
+            None => {
+                let split =
+                    SplitVec::with_doubling_growth_and_fragments_capacity(32).map_into(par_map);
+                self.extend(split);
+                self
+            }
             Some(iter_len) => {
                 self.reserve(iter_len);
                 let fixed: FixedVec<_> = self.into();
